@@ -14,6 +14,24 @@ where
     loop {}
 }
 
+/// `anyhow::Error::msg` stub for obligations whose contract is "Err exactly outside the accepted domain":
+/// the harness sets ERR_ALLOWED before the call; constructing an error while it is false refutes the contract
+/// ("Err only if not accepted"); the harness asserts acceptance after an Ok return ("Ok only if accepted").
+/// The error object is never built (the path ends here), which keeps anyhow's vtable/backtrace machinery out of CBMC.
+pub static mut ERR_ALLOWED: bool = false;
+pub fn error_iff_allowed<M>(_m: M) -> crate::Error
+where
+    M: Display + Debug + Send + Sync + 'static,
+{
+    kani::assert(unsafe { ERR_ALLOWED }, "contract: Err returned on an input the specification accepts");
+    kani::cover!(true, "error path reachable");
+    kani::assume(false);
+    loop {}
+}
+pub fn allow_err(b: bool) {
+    unsafe { ERR_ALLOWED = b }
+}
+
 /// `get_total_memory_size` stub: arbitrary value (keeps sysinfo/rayon out of the formula).
 pub fn any_total_memory() -> u64 {
     kani::any()
@@ -47,3 +65,137 @@ pub fn sleep_ns_recorder(ns: u64) {
         SLEEP_TOTAL_NS += ns as u128;
     }
 }
+
+pub fn empty_string() -> String {
+    String::new()
+}
+
+// ------------------------------------------------------------------------------------------------
+// Recording statistic node: implements every stat seam (ReadStat, WriteStat, ConcurrencyStat,
+// MetricItemRetriever, StatNode) with harness-chosen readings and call recording.
+// ------------------------------------------------------------------------------------------------
+use crate::base::{ConcurrencyStat, MetricEvent, MetricItem, MetricItemRetriever, ReadStat, StatNode, TimePredicate, WriteStat};
+use std::sync::atomic::{AtomicU32, AtomicU64, Ordering::SeqCst};
+use std::sync::Arc;
+
+pub fn ev_idx(e: MetricEvent) -> usize {
+    match e {
+        MetricEvent::Pass => 0,
+        MetricEvent::Block => 1,
+        MetricEvent::Complete => 2,
+        MetricEvent::Error => 3,
+        MetricEvent::Rt => 4,
+    }
+}
+
+#[derive(Debug, Default)]
+pub struct RecNode {
+    // readings handed to the code under contract
+    pub sum: [AtomicU64; 5],
+    pub qps_bits: [AtomicU64; 5],
+    pub qps_prev_bits: [AtomicU64; 5],
+    pub min_rt_bits: AtomicU64,
+    pub avg_rt_bits: AtomicU64,
+    pub conc: AtomicU32,
+    // recording
+    pub add_calls: [AtomicU32; 5],
+    pub add_total: [AtomicU64; 5],
+    pub upd_conc_calls: AtomicU32,
+    pub inc_calls: AtomicU32,
+    pub dec_calls: AtomicU32,
+    pub reads: AtomicU32,
+    /// global sequence number of the last write call (order of effects across nodes)
+    pub last_seq: AtomicU32,
+}
+
+pub static SEQ: AtomicU32 = AtomicU32::new(0);
+pub fn next_seq() -> u32 {
+    SEQ.fetch_add(1, SeqCst) + 1
+}
+
+impl RecNode {
+    pub fn new() -> Self {
+        Self::default()
+    }
+    pub fn writes(&self) -> u32 {
+        let mut n = self.upd_conc_calls.load(SeqCst) + self.inc_calls.load(SeqCst) + self.dec_calls.load(SeqCst);
+        n += self.add_calls[0].load(SeqCst) + self.add_calls[1].load(SeqCst) + self.add_calls[2].load(SeqCst)
+            + self.add_calls[3].load(SeqCst) + self.add_calls[4].load(SeqCst);
+        n
+    }
+}
+impl ReadStat for RecNode {
+    fn qps(&self, e: MetricEvent) -> f64 {
+        self.reads.fetch_add(1, SeqCst);
+        f64::from_bits(self.qps_bits[ev_idx(e)].load(SeqCst))
+    }
+    fn qps_previous(&self, e: MetricEvent) -> f64 {
+        self.reads.fetch_add(1, SeqCst);
+        f64::from_bits(self.qps_prev_bits[ev_idx(e)].load(SeqCst))
+    }
+    fn sum(&self, e: MetricEvent) -> u64 {
+        self.reads.fetch_add(1, SeqCst);
+        self.sum[ev_idx(e)].load(SeqCst)
+    }
+    fn min_rt(&self) -> f64 {
+        self.reads.fetch_add(1, SeqCst);
+        f64::from_bits(self.min_rt_bits.load(SeqCst))
+    }
+    fn avg_rt(&self) -> f64 {
+        self.reads.fetch_add(1, SeqCst);
+        f64::from_bits(self.avg_rt_bits.load(SeqCst))
+    }
+}
+impl WriteStat for RecNode {
+    fn add_count(&self, e: MetricEvent, count: u64) {
+        self.add_calls[ev_idx(e)].fetch_add(1, SeqCst);
+        let t = self.add_total[ev_idx(e)].load(SeqCst);
+        self.add_total[ev_idx(e)].store(t.wrapping_add(count), SeqCst);
+        self.last_seq.store(next_seq(), SeqCst);
+    }
+    fn update_concurrency(&self, _c: u32) {
+        self.upd_conc_calls.fetch_add(1, SeqCst);
+    }
+}
+impl ConcurrencyStat for RecNode {
+    fn current_concurrency(&self) -> u32 {
+        self.reads.fetch_add(1, SeqCst);
+        self.conc.load(SeqCst)
+    }
+    fn increase_concurrency(&self) {
+        self.inc_calls.fetch_add(1, SeqCst);
+        let c = self.conc.load(SeqCst);
+        self.conc.store(c.wrapping_add(1), SeqCst);
+        self.last_seq.store(next_seq(), SeqCst);
+    }
+    fn decrease_concurrency(&self) {
+        self.dec_calls.fetch_add(1, SeqCst);
+        let c = self.conc.load(SeqCst);
+        self.conc.store(c.wrapping_sub(1), SeqCst);
+        self.last_seq.store(next_seq(), SeqCst);
+    }
+}
+impl MetricItemRetriever for RecNode {
+    fn metrics_on_condition(&self, _p: &TimePredicate) -> Vec<MetricItem> {
+        Vec::new()
+    }
+}
+impl StatNode for RecNode {
+    fn generate_read_stat(&self, _sample_count: u32, _interval_ms: u32) -> crate::Result<Arc<dyn ReadStat>> {
+        kani::assert(false, "generate_read_stat is not expected in this obligation");
+        Ok(Arc::new(RecNode::new()))
+    }
+}
+
+/// `std::sync::Once::call_once` stub: runs the closure unconditionally. Sequential harnesses only; used to keep the
+/// futex/queue state machine of Once (lazy_static initialisation, log-once helpers) out of the formula. A lazy value
+/// may therefore be initialised more than once, which is unobservable for the immutable lazies of this crate.
+pub fn once_stub<F: FnOnce()>(_s: &std::sync::Once, f: F) {
+    f()
+}
+
+/// stub for the private `Arc::drop_slow` (the path taken when the last strong reference goes away): leak instead of
+/// free. CBMC resolves the drop-in-place slot of a trait-object vtable to every drop glue of the program, which exhausts
+/// memory; with this stub reference counts still move exactly, only deallocation (and Drop of the pointee) is skipped.
+/// Obligations that depend on a Drop impl (BreakerBase) opt out with `//@keep-drop`.
+pub fn arc_drop_slow_noop<T: ?Sized, A: std::alloc::Allocator>(_s: &mut std::sync::Arc<T, A>) {}
